@@ -547,6 +547,7 @@ func (fx *Fx) evalTypeAssert(st *State, x *ast.TypeAssertExpr, commaOk bool) []V
 		p := fx.d.declareFun("implements_"+typeKey(t), []string{SRef}, SBool)
 		is = app(p, v.X)
 	}
+	is = and(not(app("=", v.X, "nil")), is) // a nil interface value holds no type: the assertion fails (as in the type switch)
 	if !commaOk {
 		fx.oblige(st, "typeassert", exprText(x), is, "")
 		st.assume(is)
